@@ -103,9 +103,19 @@ impl OrderedSet {
     /// Removes all elements in the set, while preserving its capacity.
     #[inline]
     pub fn clear(&mut self) {
-        self.inner.clear();
-        self.inner.shrink_to_fit();
-        self.empty_count = 0;
+        if self.lock == 0 {
+            self.inner.clear();
+            self.inner.shrink_to_fit();
+            self.empty_count = 0;
+        } else {
+            // See `OrderedMap::clear`: keep the positions while an iterator is running.
+            let len = self.inner.len();
+            self.inner.clear();
+            for i in 0..len {
+                self.inner.insert(MapKey::Empty(i));
+            }
+            self.empty_count = len;
+        }
     }
 
     /// Checks if a given value is present in the set
